@@ -22,6 +22,7 @@ import (
 	"sort"
 	"strings"
 	"sync"
+	"syscall"
 	"testing"
 	"time"
 
@@ -392,15 +393,26 @@ func readFrame(c net.Conn) ([]byte, error) {
 
 // backend kinds: live answers the status request; closer accepts and closes; dead refuses.
 func startBackend(kind, motd string, wg *sync.WaitGroup) (addr string, stop func()) {
+	if kind == "dead" {
+		// bound, not listening: refuses, and the port cannot be handed to a later listener of this run
+		fd, err := syscall.Socket(syscall.AF_INET, syscall.SOCK_STREAM, 0)
+		if err != nil {
+			panic(err)
+		}
+		if err = syscall.Bind(fd, &syscall.SockaddrInet4{Addr: [4]byte{127, 0, 0, 1}}); err != nil {
+			panic(err)
+		}
+		sa, err := syscall.Getsockname(fd)
+		if err != nil {
+			panic(err)
+		}
+		return fmt.Sprintf("127.0.0.1:%d", sa.(*syscall.SockaddrInet4).Port), func() { _ = syscall.Close(fd) }
+	}
 	ln, err := net.Listen("tcp", "127.0.0.1:0")
 	if err != nil {
 		panic(err)
 	}
 	addr = ln.Addr().String()
-	if kind == "dead" {
-		_ = ln.Close()
-		return addr, func() {}
-	}
 	wg.Add(1)
 	go func() {
 		defer wg.Done()
